@@ -3,6 +3,7 @@
 import base64
 import binascii
 import datetime
+import decimal
 import re
 
 from .utils import parse_into_datetime
@@ -84,7 +85,13 @@ class FloatConstant(_Constant):
             raise ValueError("must be a float.")
 
     def __str__(self):
-        return "%s" % self.value
+        text = "%s" % self.value
+        if "e" in text or "E" in text:
+            # The pattern grammar has no exponent notation for float literals.
+            text = format(decimal.Decimal(text), "f")
+            if "." not in text:
+                text += ".0"
+        return text
 
 
 class BooleanConstant(_Constant):
